@@ -439,6 +439,14 @@ class IKRun:
                 self.probes["move_stationary_internal_ik"] += 1
                 if draws:
                     self.probes["move_stationary_used_restarts"] += 1
+        try:
+            th_ = np.asarray(arm._theta, float).reshape(-1)
+            inl = bool(np.all(th_ >= np.asarray(arm.joint_mins, float) - 1e-12) and np.all(th_ <= np.asarray(arm.joint_maxs, float) + 1e-12))
+            spec = self.trace["config"]["arm"]
+            self.states.add(digest_int((spec.get("file", spec["kind"]), arm.num_dof, bool(spec.get("base")), self.coherent() <= 1e-7, inl,
+                                        self._moved, float(arm.pos_tolerance) > float(arm.rot_tolerance), op)))
+        except Exception:
+            pass
         self.log.add("state", tuple(float(x) for x in np.asarray(arm._theta, float).reshape(-1)),
                      tuple(float(x) for x in np.asarray(arm.getEEPos().gTAA(), float).reshape(-1)),
                      type(exc).__name__ if exc else None, tuple(draws))
@@ -876,7 +884,8 @@ RULE = ("One run = one arm (5 bundled URDFs, the 6R test arm, random 1-7-joint r
         "setJointProperties, tolerance change} under a simulator-owned PRNG whose restart draws are uniform or scripted "
         "(near-solution at a chosen restart index, far, edge, zero). Goals: FK of in-limit vectors, vectors on the limit boundary, "
         "poses beyond a rigorous reach bound, arbitrary poses. Non-trivial = the run contained at least one IK-family call that "
-        "returned; distinct = distinct event-log digest. transitions = distinct solve classes (arm, path, outcome, restart index "
+        "returned; distinct = distinct event-log digest. states = distinct abstract arm states after a step (arm, #joints, base, "
+        "coherent?, stored joints inside limits?, moved/re-tooled?, tolerance order, last op); transitions = distinct solve classes (arm, path, outcome, restart index "
         "of success, check flag, first draw-script kind, tolerance order, goal kind).")
 REAL = ["kinematics.arm_model.Arm (IK, constrainedIK, IKFree, FK, move, setArbitraryHome ...)", "loadArmFromURDF on the bundled URDFs",
         "fmr.IKinSpace / IKinSpaceConstrained / FKinSpace (Numba-compiled)", "scipy.optimize.root (inside IKFree)"]
